@@ -35,5 +35,10 @@ type Values struct {
 
 // Call the function with the arguments provided.
 func (f *Values) Call(s *slip.Scope, args slip.List, depth int) (result slip.Object) {
-	return slip.Values(args)
+	// The argument list belongs to the caller, mapcar for one refills it
+	// for each application, so the values are a copy.
+	vals := make(slip.Values, len(args))
+	copy(vals, args)
+
+	return vals
 }
